@@ -23,9 +23,16 @@ CLAUSES = ["C05", "C11.d"]
 ADAPTERS = ["ddpg", "td3", "td3_lap", "sac", "dqn", "nature_dqn", "ddqn", "ddqn_per", "td7", "mrq", "pets", "reinforce", "actor_critic", "a2c", "ppo", "cmaes"]
 
 
+def _T(rng, tier, name, short):
+    """Run length: thorough tier adds a share of long runs (deeper bound) for the cheaper routines."""
+    if tier == "thorough" and name not in ("pets", "mrq", "td7", "ppo", "cmaes") and rng.random() < 0.15:
+        return rng.choice([80, 150])
+    return rng.choice(short)
+
+
 def make_plan(rng, tier, index):
     name = ADAPTERS[index % len(ADAPTERS)]
-    plan = trainplan.base_plan(rng, PROPERTY, CLAUSES, name, T=rng.choice([12, 20, 30]) if name != "pets" else rng.choice([8, 12]))
+    plan = trainplan.base_plan(rng, PROPERTY, CLAUSES, name, T=_T(rng, tier, name, [12, 20, 30]) if name != "pets" else rng.choice([8, 12]))
     plan["monitor"] = True
     plan["logger"] = rng.random() < 0.85
     return plan
